@@ -55,7 +55,7 @@ def run_property(prop: str, tier: str, root: str | None = None, write: bool = Tr
                  "existential (np.any(violation) / not np.all(requirement)); no public accessor returns a private attribute, an element of a private container, or a "
                  "module-level mutable table (or an entry of it) as it is unless the result is immutable (frozen exception tables), and no public member that is cached "
                  "(cached_property / lru_cache) returns a mutable object; no method keeps an array-like / container parameter in an attribute of self as it was given "
-                 "(directly, through one local, or through wrappers that do not copy: AbstractArray, np.asarray, cast) outside a frozen exception table.")
+                 "(directly, through one local, or through wrappers that do not copy: AbstractArray, np.asarray, cast) outside a frozen exception table; an Optional limit whose value 0 is legal is tested with `is not None`, not by its truth value.")
     assum = getattr(mod, "ASSUMPTIONS", []) if mod else []
     return rep.finish(seed, extra, expl, assum)
 
